@@ -172,8 +172,8 @@ def finding_for(chk: Check, pr: Prepared, kind: str):
         if sig.get("kind") != "problem-predicate":
             return False
         pred = sig.get("predicate")
-        if pred == "hoist-unsafe":
-            return hoist_unsafe(pr.assignment)
+        if pred == "product-hoist-unsafe":
+            return product_hoist_unsafe(pr.assignment)
         if pred == "integer-literal-arithmetic":
             return has_integer_literal_product(pr.assignment)
         return False
@@ -181,29 +181,32 @@ def finding_for(chk: Check, pr: Prepared, kind: str):
     return chk.match_known(match)
 
 
-def hoist_unsafe(assignment) -> bool:
-    """F1 signature: some Add/Subtract node has a contraction index shared by both operands that is
-    missing from at least one additive term below it."""
+def product_hoist_unsafe(assignment) -> bool:
+    """F12 signature: some Multiply node whose operands share a contraction index that neither
+    operand mentions in every one of its additive terms."""
     from tensora.expression import ast as s
 
     target = set(assignment.target.indexes)
 
-    def terms(e):
+    def every(e):
         if isinstance(e, (s.Add, s.Subtract)):
-            return terms(e.left) + terms(e.right)
-        return [e]
+            return every(e.left) & every(e.right)
+        if isinstance(e, s.Multiply):
+            return every(e.left) | every(e.right)
+        if isinstance(e, s.Tensor):
+            return set(e.indexes)
+        return set()
 
     def idx(e):
         return set(e.index_participants().keys())
 
     def walk(e):
-        if isinstance(e, (s.Add, s.Subtract)):
-            shared = (idx(e.left) & idx(e.right)) - target
-            for t in terms(e):
-                if shared - idx(t):
-                    return True
-            return walk(e.left) or walk(e.right)
         if isinstance(e, s.Multiply):
+            shared = (idx(e.left) & idx(e.right)) - target
+            if shared - (every(e.left) | every(e.right)):
+                return True
+            return walk(e.left) or walk(e.right)
+        if isinstance(e, (s.Add, s.Subtract)):
             return walk(e.left) or walk(e.right)
         return False
 
